@@ -49,8 +49,9 @@ THEOREMS = [
     "Measured.convert_simple_connected",
     "Measured.Obligations.NearShipped.fund_connected", "Measured.Obligations.NearShipped.shipped_fundamental_units_interconvert",
     "Measured.Obligations.NearShipped.shipped_simple_units_interconvert", "Measured.Obligations.NearShipped.shipped_speed_converts",
+    "Measured.C09.connected_is_found",
 ]
-LEAN_TARGETS = ["Props.C09", "Obligations.C09", "Obligations.C09Flat"]
+LEAN_TARGETS = ["Props.C09", "Obligations.C09", "Obligations.C09Flat", "Props.Planner"]
 QUICK = {"chunks": 1, "ops": 2000}
 THOROUGH = {"chunks": 1, "ops": 2000}
 RULE = ("exhaustive: every intercepted declaration, every stored ratio, every named unit with a physical dimension "
